@@ -129,7 +129,7 @@ def local_families():
 def fams():
     global _FAMS
     if _FAMS is None:
-        _FAMS = {f.name: f for f in fam_mod.families()}
+        _FAMS = {f.name: f for f in fam_mod.families() if not getattr(f, 'fractional', False)}
         for f in local_families():
             _FAMS[f.name] = f
     return _FAMS
